@@ -910,7 +910,11 @@ class C18(Prop):
                 # forms: estimate_total_polynomial_degree(Form) and attach_estimated_degrees
                 try:
                     e2 = G.expr((), (), 2)
-                    form = e * ufl.dx(G.mesh) + e2 * ufl.ds(G.mesh) + (e2 * e2) * ufl.dx(G.mesh, degree=3)
+                    # every other form carries a stale estimate in its metadata, as a form derived (replace / action /
+                    # derivative) from an already processed one does: attach_estimated_degrees must estimate again
+                    stale = {"estimated_polynomial_degree": rng.randrange(0, 2)} if (k // 5) % 2 else {}
+                    stages["attach_with_stale_metadata"] = stages.get("attach_with_stale_metadata", 0) + (1 if stale else 0)
+                    form = e * ufl.dx(G.mesh, metadata=stale) + e2 * ufl.ds(G.mesh, metadata=stale) + (e2 * e2) * ufl.dx(G.mesh, degree=3)
                     its = [it.integrand() for it in form.integrals()]
                     self.keep.append(form)
                     cs = ctx_ser(its, 1, variant, None)
